@@ -10,6 +10,11 @@ NOT_APPLICABLE = {
 }
 
 TEXT = {
+    'C06': {
+        'technique': 'Verus contracts on the real Unreal2StringDecoder and the three parse functions: decoder == reference model for every length byte, parsers are left inverses of spec encoders (loops by quantified invariants)',
+        'level_text': 'Unbounded proof: decode_string matches the UE2 string model for all 256 length-byte values (Latin-1 and UCS-2, optional 0x01, cursor never past the data), ServerInfo::parse / Players::parse (bot iff ping == 0, every player once, nothing already collected touched) / MutatorsAndRules::parse (every key/value pair recorded once in order) on well-formed bodies of any length, response-header check, request bytes, greedy receive loops terminate on the finite reply script.',
+        'level_note': 'encoding_rs transcoding and colour/control stripping are abstract pure functions; the HashSet/HashMap filing of a pair is cut out verbatim and assumed; Unreal2Protocol::new and the retry wrapper are assumed here (wrapper discharged by Kani).',
+    },
     'C07': {
         'technique': 'Verus: each single-game parser proved a left inverse of a spec encoder of the documented reply layout; request bytes and destination port asserted on the ghost send log',
         'level_text': 'Unbounded proof for Savage 2 (whole query function incl. request byte and port), Frontlines: Fuel of War, JC2-MP player list (loop, reported-vs-listed count) and Mindustry server data (length-prefixed strings, big-endian ints, optional trailing mode name): every field of a well-formed reply lands in the correspondingly named response field.',
